@@ -774,16 +774,12 @@ Proof.
   split; [lia | exact I].
 Qed.
 
-Theorem stall_decay_refuted :
-  exists evs t0 now1 now2,
-    let e := est_run evs (est_new Rar t0) in
-    hist_ok evs (est_new Rar t0) /\
-    (prev_time e <= now1)%N /\ (now1 < now2)%N /\ (start_time e < now1)%N /\
-    est_sps Rar e now1 < est_sps Rar e now2.
+Definition wit_e : est R := mkEst (9009 / 100) (8199 / 100) 1515%N 30000000000%N 0%N.
+
+(** the reported rate half a second into the stall is larger than at the last sample *)
+Lemma wit_rise : est_sps Rar wit_e 30000000000 < est_sps Rar wit_e 30500000000.
 Proof.
-  exists wit_evs, 0%N, 30000000000%N, 30500000000%N. cbv zeta.
-  rewrite wit_state. cbn [prev_time start_time].
-  split; [exact wit_hist_ok|]. split; [lia|]. split; [lia|]. split; [lia|].
+  unfold wit_e.
   rewrite !est_sps_R. cbn [sm dsm prev_time start_time].
   change (30000000000 - 30000000000)%N with 0%N.
   change (30000000000 - 0)%N with 30000000000%N.
@@ -804,6 +800,19 @@ Proof.
   apply Rmult_lt_reg_r with D; [exact HD|].
   replace (X / D * D) with X by (field; lra).
   unfold X, D. nra.
+Qed.
+
+Theorem stall_decay_refuted :
+  exists evs t0 now1 now2,
+    let e := est_run evs (est_new Rar t0) in
+    hist_ok evs (est_new Rar t0) /\
+    (prev_time e <= now1)%N /\ (now1 < now2)%N /\ (start_time e < now1)%N /\
+    est_sps Rar e now1 < est_sps Rar e now2.
+Proof.
+  exists wit_evs, 0%N, 30000000000%N, 30500000000%N. cbv zeta.
+  rewrite wit_state. cbn [prev_time start_time].
+  split; [exact wit_hist_ok|]. split; [lia|]. split; [lia|]. split; [lia|].
+  exact wit_rise.
 Qed.
 
 (** * FORGETTING *)
